@@ -95,6 +95,21 @@ EXTRA = [
 ]
 
 
+def generations(rng):
+    """one component restarted two or three times: allocate at one call site, dump, release, destroy the tracer and create the
+    next one (run with the allocator's quarantine switched off, so that the new tracer may get the old one's address)"""
+    level = rng.choice([1, 2, 2, 2])
+    lines = ["TRACER %d %d 0" % (level, rng.choice([4, 8, 16]))]
+    ops = []
+    for _g in range(rng.randint(2, 4)):
+        k = rng.randint(1, 3)
+        ops += ["A%d:%d" % (i, rng.choice([16, 64, 100])) for i in range(k)] + ["Q", "D"]
+        ops += ["F%d" % i for i in range(k)] + ["Q", "N"]
+    ops += ["A0:64", "D", "Q"]
+    lines.append("MAIN " + " ".join(ops))
+    return lines
+
+
 def run(ctx):
     thorough = ctx.tier == "thorough"
     exe = prepare(ctx)
@@ -130,6 +145,15 @@ def run(ctx):
     ctx.add_sample({"policy": blocks[-1][0], "scenario": blocks[-1][1]})
     rng.shuffle(blocks)
     n, acc = pipeline.drive_vsched(ctx, exe, blocks, SPEC_DIR, "MemTraceTrace", "Trace.cfg", label="mt", env=ENV)
+    # tracer generations: the sanitizer's quarantine is switched off for these executions, so that released blocks - the
+    # destroyed tracer among them - are handed out again at once, as an ordinary allocator does
+    gens = [("fixed -", generations(rng)) for _ in range(16 if not thorough else 300)]
+    for pol, sc in gens:
+        ctx.distinct.add(hash(pol + "|" + "\n".join(sc)))
+    genv = dict(ENV)
+    genv["ASAN_OPTIONS"] = ENV["ASAN_OPTIONS"] + ":quarantine_size_mb=0:thread_local_quarantine_size_kb=0"
+    n3, _a3 = pipeline.drive_vsched(ctx, exe, gens, SPEC_DIR, "MemTraceTrace", "Trace.cfg", label="mtgen", env=genv)
+    n += n3
     # data-race scan on the ThreadSanitizer build (what a serialising scheduler cannot see)
     scan = [b for b in blocks if not b[0].startswith("dfs")][: (120 if not thorough else 1500)]
     pipeline.race_scan(ctx, "memtrace_scenario", "memtrace_scenario.c", scan)
